@@ -1,4 +1,5 @@
 """Sidecar contracts for insights/core/dr.py and insights/contrib/toposort.py (no repository code here)."""
+import collections
 from pyvc.dsl import *
 
 M = "insights/core/dr.py"
@@ -12,6 +13,7 @@ MISSING = Tup(List(Comp), List(List(Comp)))
 
 
 PROCESS_FRAME = [
+    "forall(b, Ref_Broker, b.missing_requirements == old(b.missing_requirements))",
     # process() may record exceptions (through add_exception) only against its own component or that
     # component's registry points, only by appending, and gives each a traceback
     "forall(c, Comp, implies(c in old(broker.exceptions), c in broker.exceptions))",
@@ -35,7 +37,53 @@ RC_INV = [
     # other brokers are not touched
     "forall(b, Ref_Broker, implies(b != broker, b.instances == old(b.instances)))",
 ]
-RC_INV_INNER = ["True"]
+RUNNABLE = "({c} not in old(broker.instances) and {c} in components and {c} in DELEGATES and (ENABLED[{c}] if {c} in ENABLED else True))"
+# C02: process() is called exactly for the runnable components of the processed prefix
+RC_INV += [
+    "forall(k, range(0, i_0), implies(%s, it_0[k] in attidx))" % RUNNABLE.format(c="it_0[k]"),
+    "forall(j, range(0, len(att)), %s)" % RUNNABLE.format(c="att[j]"),
+]
+# C03: recorded exceptions / missing-requirement reports only ever change under a component of the processed prefix or one
+# of its registry points; lists only grow
+TOUCHED = "forall(k, range(0, {n}), c != it_0[k] and c not in regpoints(it_0[k]))"
+RC_INV += [
+    "forall(c, Comp, implies(c in old(broker.exceptions), c in broker.exceptions))",
+    "forall(c, Comp, implies(%s, (c in broker.exceptions) == (c in old(broker.exceptions)) and "
+    "       implies(c in broker.exceptions, seq_eq(broker.exceptions[c], old(broker.exceptions)[c]))))" % TOUCHED.format(n="i_0"),
+    "forall(c, Comp, implies(forall(k, range(0, i_0), c != it_0[k]), (c in broker.missing_requirements) == (c in old(broker.missing_requirements)) and "
+    "       implies(c in broker.missing_requirements, broker.missing_requirements[c] == old(broker.missing_requirements)[c])))",
+    "forall(b, Ref_Broker, implies(b != broker, b.exceptions == old(b.exceptions) and b.tracebacks == old(b.tracebacks) and "
+    "       b.missing_requirements == old(b.missing_requirements)))",
+]
+# inner loop of the generic `except Exception` arm (over the registry points of the failing component, arbitrary order)
+RC_INV_INNER = [t.replace("i_0", "i_0 + 1") for t in RC_INV[-4:]] + [
+    "forall(j, range(0, i_2), it_2[j] in broker.exceptions and len(broker.exceptions[it_2[j]]) >= 1 and "
+    "  broker.exceptions[it_2[j]][len(broker.exceptions[it_2[j]]) - 1] == ex)",
+    "component in broker.exceptions and len(broker.exceptions[component]) >= 1",
+    "implies(component not in regpoints(component), broker.exceptions[component][len(broker.exceptions[component]) - 1] == ex)",
+    "ex in broker.tracebacks and broker.tracebacks[ex] is not None",
+    "forall(c, old(broker.instances), c in broker.instances and broker.instances[c] == old(broker.instances)[c])",
+    "broker.instances == lold(broker.instances)",
+    "forall(b, Ref_Broker, implies(b != broker, b.instances == old(b.instances)))",
+    "g_arm == 4 and g_exc == ex",
+]
+RC_INV_BL = [t.replace("i_0", "i_0 + 1") for t in RC_INV[-4:]] + ["broker.instances == lold(broker.instances)",
+             "broker.exceptions == lold(broker.exceptions)", "broker.tracebacks == lold(broker.tracebacks)",
+             "broker.missing_requirements == lold(broker.missing_requirements)"]
+RECORDED_LAST = ("({k} in broker.exceptions and len(broker.exceptions[{k}]) >= 1 and "
+                 "broker.exceptions[{k}][len(broker.exceptions[{k}]) - 1] == g_exc)")
+# ghost assertion at the end of every iteration (in `finally`): what happened to the exception this iteration caught
+RC_ACCOUNT = " and ".join([
+    # BlacklistedSpec / generic exception: recorded against the component with a traceback
+    "implies(g_arm == 1 or g_arm == 4, (%s or component in regpoints(component)) and g_exc in broker.tracebacks and broker.tracebacks[g_exc] is not None)" % RECORDED_LAST.format(k="component"),
+    # generic exception: also against every registry point of the component
+    "implies(g_arm == 4, forall(r, regpoints(component), %s))" % RECORDED_LAST.format(k="r"),
+    # missing requirements: reported under the component, exceptions untouched
+    "implies(g_arm == 2, component in broker.missing_requirements and broker.missing_requirements[component] == g_exc.requirements)",
+    # skip: recorded iff skip recording is on, then against the skipping component itself
+    "implies(g_arm == 3 and broker.store_skips, %s)" % RECORDED_LAST.format(k="component"),
+    "implies(g_arm == 3 and not broker.store_skips, broker.exceptions == g_exc0)",
+])
 RC_POST = [
     # seeds keep their value
     "forall(c, old(broker.instances), c in broker.instances and broker.instances[c] == old(broker.instances)[c])",
@@ -132,7 +180,11 @@ def declare(reg):
     reg.external("log.isEnabledFor", params=dict(level=None), returns=BOOL)
     reg.external("time.time", returns=REAL)
     reg.external("traceback.format_exc", returns=STR)
-    reg.external("get_name", params=dict(component=Comp), returns=STR, pure=True)
+    # get_name reads __qualname__/__name__: fine for components, AttributeError for a callable without a name
+    reg.specfun("has_dunder_name", dict(x=None), BOOL, None)
+    reg.axiom("forall(c, Comp, has_dunder_name(c))")
+    reg.external("get_name", params=dict(component=None), returns=STR, raises={"AttributeError": "?not has_dunder_name(component)"},
+                 raise_frame="unchanged")
     reg.external("stringify_requirements", params=dict(requires=MISSING), returns=STR, pure=True)
 
     # --- component bodies: an assumed contract (deterministic function of the arguments; C04 needs determinism)
@@ -219,10 +271,19 @@ def declare(reg):
                            "forall(c, DELEGATES, DELEGATES[c].component == c)"],
                  modifies=["Broker.instances", "Broker.exceptions", "Broker.tracebacks", "Broker.missing_requirements",
                            "Broker.exec_times", "BLACKLISTED_SPECS"],
-                 ghosts=dict(att=(List(Comp), "[]"), attpos=(List(INT), "[]"), attidx=(Map(Comp, INT), "{}")),
-                 locals=dict(att=List(Comp), attpos=List(INT), attidx=Map(Comp, INT)),
-                 ghost_on=[("result = DELEGATES[component].process(broker)", "attidx[component] = len(att); att.append(component); attpos.append(i_0)", "before")],
-                 loops={0: RC_INV, 1: ["True"], 2: RC_INV_INNER},
+                 ghosts=collections.OrderedDict(att=(List(Comp), "[]"), attpos=(List(INT), "[]"), attidx=(Map(Comp, INT), "{}"),
+                                                g_arm=(INT, "0"), g_exc=(EXC, "uf('no_exc', EXC)"),
+                                                g_exc0=(Map(Comp, List(EXC)), "broker.exceptions")),
+                 locals=dict(att=List(Comp), attpos=List(INT), attidx=Map(Comp, INT), g_arm=INT, g_exc=EXC, g_exc0=Map(Comp, List(EXC))),
+                 ghost_on=[("result = DELEGATES[component].process(broker)", "attidx[component] = len(att); att.append(component); attpos.append(i_0)", "before"),
+                           ("start = time.time()", "g_arm = 0", "after"),
+                           ("broker.add_exception(component, bs, traceback.format_exc())", "g_arm = 1; g_exc = bs", "after"),
+                           ("broker.add_exception(component, mr)", "g_arm = 2; g_exc = mr", "after"),
+                           ("log.debug(sc)", "g_arm = 3; g_exc = sc; g_exc0 = broker.exceptions", "before"),
+                           ("pass", "g_arm = 3; g_exc = sc; g_exc0 = broker.exceptions", "before"),
+                           ("log.debug(ex)", "g_arm = 4; g_exc = ex", "before"),
+                           ("broker.exec_times[component] = time.time() - start", "assert (%s), 'accounting'" % RC_ACCOUNT, "before")],
+                 loops={0: RC_INV, 1: RC_INV_BL, 2: RC_INV_INNER},
                  raises={},
                  ensures=["result == broker"] + RC_POST)
 
@@ -249,3 +310,12 @@ def declare(reg):
     reg.contract(M, "run_order", params=dict(graph=Map(Comp, Set(Comp))), returns=List(Comp),
                  raises={"ValueError": None},
                  ensures=[t for t in TF_POST_GRAPH if "lvl" not in t] + RO_POST)
+
+    # ------------------------------------------------------------------ observers
+    reg.external("get_component_type", params=dict(component=Comp), returns=Opt(TypeT), pure=True)
+    reg.callable_sorts = getattr(reg, "callable_sorts", {})
+    reg.callable_sorts["Obs"] = reg.external("<observer>", params=dict(o=Obs, component=Comp, broker=Ref("Broker")),
+                                             raises={"Exception": None}, raise_frame="unchanged",
+                                             note="an observer may raise any Exception; it is assumed not to write Broker fields")
+    reg.contract(M, "Broker.fire_observers", params=dict(self=Ref("Broker"), component=Comp),
+                 loops={0: ["True"], 1: ["True"]}, raises={}, ensures=[])
